@@ -2,7 +2,9 @@
 """Print the prompt for a fresh mutation-seeding sub-agent for one property (nothing from /verif but the property text)."""
 import json, sys
 pid = sys.argv[1]
-wt = "/tmp/seed_%s" % pid
+rnd = sys.argv[2] if len(sys.argv) > 2 else ""
+wt = "/tmp/seed%s_%s" % (rnd, pid)
+n1, n2 = (1, 2) if not rnd else (3, 4)
 p = [json.loads(l) for l in open("/verif/properties.jsonl") if json.loads(l)["id"] == pid][0]
 print(f"""You are testing how robust a Rust code base is against subtle regressions. You work ONLY inside the scratch git worktree {wt} (a checkout of the repository garnish-lang/garnish-core: a scripting-language core with a hand-written lexer (compiler/src/lex), a precedence parser (compiler/src/parse), an instruction builder (compiler/src/build), a stack runtime (runtime/src) generic over a data trait (traits/src) and two data implementations (data/src: SimpleGarnishData in simple.rs/runtime.rs, BasicGarnishData under basic/)). Do not read or write anything under /verif or /repo, and do not use the network (run cargo with --offline).
 
@@ -14,7 +16,7 @@ This semantic property of the code base is supposed to hold:
 
 Your task: produce TWO different, independent source changes (different mechanisms / different sites) to the repository, each of which BREAKS this property while (a) the workspace still compiles and (b) the existing test suite still passes exactly as before (run `cargo test --workspace --offline 2>&1 | grep -E "^test result|FAILED"` before and after in the worktree: the same tests must pass; about 39 tests already fail upstream, that set must not change). Prefer changes that look like plausible maintenance mistakes or refactorings, and that need something specific to manifest — an unusual input, a particular combination of operand types or values, a multi-step sequence, two cooperating sites that each look fine alone, a boundary value — rather than ones any ordinary use would expose at once. Do not edit or delete existing tests.
 
-For EACH of the two changes deliver, under {wt}/out/<n>/ (n = 1, 2):
+For EACH of the two changes deliver, under {wt}/out/<n>/ (n = {n1}, {n2}):
   - patch.diff   : `git diff` of the change against the worktree's HEAD (source files only; applies with `git apply`)
   - a demonstration that FAILS with the change applied and PASSES without it: either demo_test.rs (a self-contained Rust integration test file that can be dropped into {wt}/tests/tests/ or compiler/tests/ etc. — say exactly where and how to run it) or a small program / script with the exact commands; keep it minimal and deterministic
   - meta.json    : {{"property": "{p['id']}", "what_breaks": "...", "needs_to_manifest": "the specific input / sequence / combination needed", "files_changed": [...], "how_to_run_demo": "...", "suite_before": "...", "suite_after": "..."}}
